@@ -22,7 +22,7 @@ const THREADS: usize = 8;
 const ROUNDS: usize = 3;
 
 fn render_all(env: &Environment<'static>, data: &Value, out: &mut Vec<String>) {
-    for n in NAMES {
+    for n in &NAMES[..UNIVERSE] {
         let (t, v) = enc(env.get_template(n).and_then(|t| t.render(ctx_of(0, data))));
         out.push(t.to_string());
         out.push(v.to_string());
